@@ -98,8 +98,21 @@ def conformance_case(seed):
     ass = rng.integers(0, K, n)
     c0 = rng.uniform(0.3, 0.7, d)
     lam = 10 ** rng.uniform(0, 2.5)
+    narrow = None
+    if rng.random() < 0.15:
+        # posterior far narrower than the prior: all scale matrices shrunk by s^2 (s down to 1e-8), walkers a few scale
+        # lengths from their mode, likelihood curvature ~1/s^2 so that acceptance stays non-trivial
+        narrow = float(10 ** rng.uniform(-8, -3.5))
+        covs = covs / np.max(np.sqrt(np.einsum("kii->ki", covs)), axis=1)[:, None, None] ** 2 * narrow ** 2
+        ms = mode_stats(means, covs, dofs)
+        Ln = np.linalg.cholesky(covs)
+        u = np.array([means[ass[k]] + 1.5 * Ln[ass[k]] @ rng.standard_normal(d) for k in range(n)])
+        c0 = means[0]
+        lam = 0.3 / narrow ** 2
     logl_fn = lambda x: -lam * np.sum((np.atleast_2d(x) - c0) ** 2, axis=1)
     desc = dict(kernel=kernel, d=d, K=K, n=n, bk=bk, sigma=round(sigma, 4), beta=round(beta, 4), dofs=[float(v) for v in dofs])
+    if narrow is not None:
+        desc["narrow"] = narrow
     L = np.linalg.cholesky(covs)
     Sinv = np.linalg.inv(covs)
     r = make_runner(kernel, u, logl_fn, ass, beta, ms, periodic, reflective, sigma)
@@ -164,12 +177,24 @@ def _one_sweep(rng, r, kernel, d, n, means, covs, dofs, L, Sinv, ass, beta, bk, 
         alpha = np.minimum(1.0, np.exp(beta * (ll1 - ll0) + fac))
     alpha = np.where(inside, alpha, 0.0)
     want = rng.random(n) < 0.5
-    # probes just below / just above alpha.  The margin (1e-6 relative) stays far above the rounding of log(alpha):
-    # with nu=1e6 the kernel's own 0.5*(nu+d)*log(1+q/nu) carries ~1e-10 of cancellation noise, and a margin of 1e-9
-    # produced one false alarm in 3e5 probes (alpha=3e-112) on the unchanged tree.
-    urand = np.where(want, alpha * (1 - 1e-6), np.minimum(alpha * (1 + 1e-6) + 1e-300, 1.0))
+    # Rounding budget of log(alpha), per walker.  (i) 1e-6 floor: with nu=1e6 the kernel's own 0.5*(nu+d)*log(1+q/nu) carries
+    # ~1e-10 of cancellation noise, and a margin of 1e-9 produced one false alarm in 3e5 probes (alpha=3e-112) on the unchanged
+    # tree.  (ii) the double-precision quadratic form with an ill-conditioned inverse loses cond*eps of q.  (iii) the proposal
+    # itself is stored with an absolute rounding error of eps*|u|; measured in scale lengths that is eps/sd_min, which matters
+    # for posteriors 1e-8 of the prior wide (q and logL both move by their gradient times that error).
+    eps = np.finfo(float).eps
+    sdmin = np.sqrt(np.array([np.linalg.eigvalsh(c)[0] for c in covs]).clip(1e-300))
+    q0 = np.einsum("ij,ijk,ik->i", u - means[ass], Sinv[ass], u - means[ass])
+    q1 = np.einsum("ij,ijk,ik->i", props - means[ass], Sinv[ass], props - means[ass])
+    gll = np.zeros(n)
+    for k in range(n):
+        hstep = 1e-3 * sdmin[ass[k]]
+        gll[k] = max(abs(float(logl_fn(props[k] + hstep * e)[0] - logl_fn(props[k] - hstep * e)[0])) / (2 * hstep) for e in np.eye(d))
+    budget = (1e-6 + 16 * eps * conds[ass] * (1 + np.abs(q0) + np.abs(q1)) * (kernel == "tpcn")
+              + 8 * eps * (1 + np.sqrt(np.abs(q0)) + np.sqrt(np.abs(q1))) / sdmin[ass] * (kernel == "tpcn") + 8 * eps * gll * d)
+    urand = np.where(want, alpha * (1 - np.minimum(budget, 0.5)), np.minimum(alpha * (1 + budget) + 1e-300, 1.0))
     exp_acc = inside & (urand < alpha)
-    decisive = inside & (alpha > 1e-200) & (alpha < 1 - 1e-6)
+    decisive = inside & (alpha > 1e-200) & (alpha < 1 - budget) & (budget < 1e-2)
     # ---- real kernel under injected randomness
     seen_fac = []
     with attach.Hooks() as hk:
@@ -206,13 +231,15 @@ def _one_sweep(rng, r, kernel, d, n, means, covs, dofs, L, Sinv, ass, beta, bk, 
     got_acc = np.any(u_new != u, axis=1) | (l_new != ll0)
     for k in range(n):
         if exp_acc[k] and got_acc[k]:
-            if np.max(np.abs(u_new[k] - props[k])) > 1e-9:
+            # tolerance relative to the length of the step itself (a 1e-7 perturbation of a 1e-7-wide proposal is a defect)
+            step = float(np.max(np.abs(sig[k] * (L[ass[k]] @ z[k])))) * (math.sqrt(1.0 / g[k]) if kernel == "tpcn" else 1.0)
+            if np.max(np.abs(u_new[k] - props[k])) > min(1e-9, 1e-13 + 1e-7 * step):
                 bad.append(("proposal-map", f"walker {k}: accepted proposal {u_new[k]} differs from the {kernel} map {props[k]} (boundary {bk}, step size {sig[k]:.4g})"))
                 break
     if seen_fac:
         f = seen_fac[0]
         m = inside & np.isfinite(fac)
-        ftol = 1e-8 * (1 + np.abs(fac)) * np.maximum(1.0, conds[ass] * 1e-8)      # Mahalanobis distances lose cond*eps
+        ftol = 1e-8 * (1 + np.abs(fac)) * np.maximum(1.0, conds[ass] * 1e-8) + budget     # Mahalanobis distances lose cond*eps
         if m.any() and np.any(np.abs(f[m] - fac[m]) > ftol[m]):
             j = int(np.argmax(np.where(m, np.abs(f - fac), 0)))
             bad.append(("acceptance-factor", f"walker {j}: acceptance factor {f[j]!r} but log t(u) - log t(u') = {fac[j]!r}"))
@@ -425,6 +452,9 @@ def run():
             ck.event("kernel sweeps under injected randomness compared with the specification", stt.get("sweeps", 1))
             ck.event("walkers with a decisive accept/reject probe", stt.get("decisive", 0))
             ck.event("proposals driven outside the cube", stt.get("outside", 0))
+            if desc.get("narrow") is not None:
+                ck.event("conformance cases on a posterior 1e-3.5..1e-8 of the prior wide", 1)
+                ck.event("decisive probes in narrow-posterior cases", stt.get("decisive", 0))
             for key, what in bad:
                 ck.violation(key, what, dict(conformance_seed=sd, case=desc))
     # ---- M3b
